@@ -4,25 +4,26 @@
  the patch applies and builds; the existing suite passes with it; the demonstration fails with it and passes without it."""
 import json, os, re, shutil, subprocess, sys, time
 ID, n = sys.argv[1], sys.argv[2]
-src = "/tmp/mut/%s/_out" % ID
+out_n = sys.argv[3] if len(sys.argv) > 3 else n        # number under which the seed is stored (later rounds continue the numbering)
+src = os.path.join(os.environ.get("MUT_SRC", "/tmp/mut"), ID, "_out")
 patch = os.path.join(src, "patch%s.diff" % n)
 demo = os.path.join(src, "demo%s_test.go" % n)
 note = os.path.join(src, "note%s.md" % n)
 env = dict(os.environ, GOFLAGS="-mod=mod", GOPROXY="off", GOSUMDB="off", GOTOOLCHAIN="local")
-wt = "/tmp/seedchk/%s-%s" % (ID, n)
+wt = "/tmp/seedchk/%s-%s" % (ID, out_n)
 def sh(cmd, cwd=wt, timeout=900):
     p = subprocess.run(cmd, shell=True, cwd=cwd, env=env, stdout=subprocess.PIPE, stderr=subprocess.STDOUT, text=True, timeout=timeout)
     return p.returncode, p.stdout
 os.makedirs("/tmp/seedchk", exist_ok=True)
 subprocess.run("git -C /repo worktree remove --force %s" % wt, shell=True, stdout=subprocess.DEVNULL, stderr=subprocess.DEVNULL)
 rc, out = sh("git -C /repo worktree add -q --detach %s HEAD" % wt, cwd="/repo")
-meta = {"id": "%s-%s" % (ID, n), "property": ID, "source": "independent sub-agent given only the property text", "base": subprocess.run("git -C /repo rev-parse --short HEAD", shell=True, capture_output=True, text=True).stdout.strip()}
+meta = {"id": "%s-%s" % (ID, out_n), "property": ID, "source": "independent sub-agent given only the property text", "base": subprocess.run("git -C /repo rev-parse --short HEAD", shell=True, capture_output=True, text=True).stdout.strip()}
 try:
     if not os.path.exists(patch) or not os.path.exists(demo):
         raise SystemExit("missing patch/demo for %s %s" % (ID, n))
     rc, out = sh("git apply --3way %s || git apply %s" % (patch, patch))
     if rc != 0: raise SystemExit("patch does not apply: " + out[-500:])
-    sh("git diff HEAD > /tmp/seedchk/%s-%s.patch" % (ID, n))
+    sh("git diff HEAD > /tmp/seedchk/%s-%s.patch" % (ID, out_n))
     rc, out = sh("go build ./... && go vet ./... >/dev/null 2>&1; go build ./...")
     if rc != 0: raise SystemExit("does not build: " + out[-500:])
     rc, out = sh("go test -count=1 ./... 2>&1 | tail -5")
@@ -44,15 +45,15 @@ try:
     if os.path.exists(note):
         txt = open(note).read()
         meta["needs"] = txt[:1500]
-    outdir = "/verif/seeded/%s-%s" % (ID, n)
+    outdir = "/verif/seeded/%s-%s" % (ID, out_n)
     if meta["confirmed"]:
         os.makedirs(outdir, exist_ok=True)
-        shutil.copy("/tmp/seedchk/%s-%s.patch" % (ID, n), os.path.join(outdir, "patch.diff"))
+        shutil.copy("/tmp/seedchk/%s-%s.patch" % (ID, out_n), os.path.join(outdir, "patch.diff"))
         shutil.copy(demo, os.path.join(outdir, "demo_test.go.txt"))
         if os.path.exists(note): shutil.copy(note, os.path.join(outdir, "note.md"))
         json.dump(meta, open(os.path.join(outdir, "meta.json"), "w"), indent=1)
     print(json.dumps({k: meta[k] for k in ("id", "confirmed", "suite_with_patch", "demo_with_patch", "demo_without_patch")}))
 finally:
     subprocess.run("git -C /repo worktree remove --force %s" % wt, shell=True, stdout=subprocess.DEVNULL, stderr=subprocess.DEVNULL)
-    try: os.remove("/tmp/seedchk/%s-%s.patch" % (ID, n))
+    try: os.remove("/tmp/seedchk/%s-%s.patch" % (ID, out_n))
     except OSError: pass
